@@ -34,6 +34,7 @@ CONSTANTS
     InnerCall,    \* <<alias, arg>> called by the "nestSame"/"nestOther" bodies
     OutAliases,   \* output aliases
     Vals,         \* value tokens (sent payloads, results, return values)
+    SentVals,     \* subset of Vals: payloads the *recorded* program may send (edits may use all of Vals)
     Excs,         \* ordinary exception types
     Handlers,     \* aliases (input or output) that have a data handler
     InFaults,     \* subset of {"none","keyFail","prepFail","copyFail"}
@@ -384,13 +385,14 @@ PStep(st) ==
               /\ ev' = [Ev0 EXCEPT !.kind = "pout", !.step = st, !.seen = seen, !.bodyRuns = 0, !.icpt = TRUE,
                                    !.mode = ctl.mode, !.rid = rec.pbRec]
          [] OTHER ->   \* discard / force / record_data are no-ops while replaying; play_data reads the recording
+              LET seen == IF st.kind = "playdata"
+                          THEN (IF <<"user", "k1", 0>> \in DOMAIN d THEN d[<<"user", "k1", 0>>]
+                                ELSE <<"err", "RecordingKeyError">>)
+                          ELSE None2
+              IN
               /\ rec' = rec
-              /\ ctl' = [ctl EXCEPT !.pidx = @ + 1, !.steps = @ + 1]
-              /\ ev' = [Ev0 EXCEPT !.kind = "pctl", !.step = st, !.mode = ctl.mode, !.rid = rec.pbRec,
-                                   !.seen = IF st.kind = "playdata"
-                                            THEN (IF <<"user", "k1", 0>> \in DOMAIN d THEN d[<<"user", "k1", 0>>]
-                                                  ELSE <<"err", "RecordingKeyError">>)
-                                            ELSE None2]
+              /\ ctl' = [ctl EXCEPT !.pidx = @ + 1, !.steps = @ + 1, !.failed = seen[1] = "err"]
+              /\ ev' = [Ev0 EXCEPT !.kind = "pctl", !.step = st, !.mode = ctl.mode, !.rid = rec.pbRec, !.seen = seen]
     /\ UNCHANGED <<cas, prog>>
 
 \* the replayed operation ends (or was cut short by a missing key)
@@ -424,7 +426,7 @@ Next ==
     \/ Toggle
     \/ \E c \in Classes : OpEnter(c)
     \/ \E c \in InCalls, b \in Bodies, f \in InFaults : CallInput(c, b, f)
-    \/ \E o \in OutAliases, v \in Vals, res \in OutResults, f \in OutFaults : CallOutput(o, v, res, f)
+    \/ \E o \in OutAliases, v \in SentVals, res \in OutResults, f \in OutFaults : CallOutput(o, v, res, f)
     \/ \E k \in Ctl : Control(k)
     \/ \E out \in Outs \cup {<<"int", "BI">>} :
           /\ (out[1] = "val" => "ret" \in Ends) /\ (out[1] = "exc" => "raise" \in Ends)
